@@ -493,7 +493,13 @@ func (ms *MidState) reviseFileContractElement(fce types.FileContractElement, rev
 
 func (ms *MidState) resolveFileContractElement(fce types.FileContractElement, valid bool, txid types.TransactionID) {
 	fced := ms.recordFileContractElement(fce.ID)
-	fced.FileContractElement = fce.Copy()
+	// If the contract was created or revised earlier in this block, the diff
+	// already holds the element as it was before the block (plus the latest
+	// revision); overwriting it with the revised contract would make a revert
+	// restore the wrong contract and compute the wrong leaf hash.
+	if !fced.Created && fced.Revision == nil {
+		fced.FileContractElement = fce.Copy()
+	}
 	fced.Resolved = true
 	fced.Valid = valid
 	ms.spends[fce.ID] = txid
